@@ -93,7 +93,8 @@ Print Assumptions C19_checker_accepts_model_runs.
    the message handler checks the change permission before writing *)
 Theorem C19_write_paths :
   store_key_users = pinned_store_key_users /\ setter_callers = pinned_setter_callers /\
-  msg_gate_ok = true /\ msg_gate_perm = pinned_gate_perm.
+  msg_gate_ok = true /\ msg_gate_perm = pinned_gate_perm /\
+  genesis_error_handling = pinned_genesis_error_handling.
 Proof. exact write_paths_ok. Qed.
 Print Assumptions C19_write_paths.
 
